@@ -21,6 +21,7 @@ def run(prog, rep, tier):
            'parser sites rely on table entries: %s' % via_table, '-')
 
     r18_2(prog, rep)
+    r18_3(prog, rep)
 
 
 VEC_REORDER = {'remove', 'swap_remove', 'retain', 'retain_mut', 'dedup', 'dedup_by', 'dedup_by_key', 'sort', 'sort_by', 'sort_by_key', 'sort_unstable',
@@ -79,6 +80,38 @@ def r18_2(prog, rep):
            if st.kind == 'assign' and st.place == (0, ()) and st.rv.r == 'aggregate' and st.rv.j.get('variant') == 'Ok']
     okr = len(oks) == 1 and oks[0][2].rv.ops[0].place is not None and bool(origins(body, [oks[0][2].rv.ops[0].place[0]], through_calls=False).locals & vo)
     rep.ob('R18.2', okr, 'R18.2|%s|returns-the-pushed-vector' % body.nkey, 'Ok(..) returns the vector the keys were pushed to' if okr else 'the Ok result is not the vector the keys were pushed to', body.loc())
+
+
+def r18_3(prog, rep):
+    """"PEM and DER forms of the same key parse identically" -- structural part: the PEM-or-DER entry points hand every input the PEM parser does not
+    accept to the DER parser as is (whatever its bytes look like), and what the PEM parser accepts to the same DER parser: with the PEM parse known
+    to have failed, every path to the return passes the call `parse_..._der(data)` on the untouched parameter."""
+    for name, der in (('parse_openssl_25519_pubkey', 'parse_openssl_25519_pubkey_der'), ('parse_openssl_25519_privkey', 'parse_openssl_25519_privkey_der')):
+        body = one_body(prog, rep, 'R18.3', 'curve25519-parser', exact=name)
+        if body is None:
+            continue
+        rep.fn(body)
+        key = 'R18.3|%s|' % body.nkey
+        pp = [b for b in body.calls() if cnorm(b.term) in ('pem::parse', 'pem::parser::parse') or (b.term.cmethod == 'parse' and 'pem' in cnorm(b.term))]
+        ders = [b for b in body.calls() if cnorm(b.term).endswith(der)]
+        if len(pp) != 1 or not ders:
+            rep.ob('R18.3', False, key + 'anchors', 'expected one pem::parse call and calls to %s (found %d / %d)' % (der, len(pp), len(ders)), body.loc())
+            continue
+        p0 = pp[0]
+        raw = [d for d in ders if d.term.args[0].place is not None and must_derive(body, d.term.args[0].place[0], lambda k, ob, bb: k == 'param' and ob == 1)]
+        # paths on which pem::parse returned Err, cut at the DER call on the raw input
+        r = reachable_vs(body, p0.term.target, removed_blocks=[d.idx for d in raw], env0={p0.term.dest[0]: 'Err'}) if p0.term.target is not None and p0.term.dest is not None else set()
+        bad = [x for x in body.return_blocks() if x in r]
+        # the PEM parser sees the input first and unconditionally (no pre-filter deciding the format from the look of the bytes)
+        pre = body.dominates(p0.idx, body.return_blocks()[0]) if body.return_blocks() else False
+        okp = p0.term.args[0].place is not None and must_derive(body, p0.term.args[0].place[0], lambda k, ob, bb: k == 'param' and ob == 1)
+        ok = bool(raw) and not bad and pre and okp
+        rep.ob('R18.3', ok, key + 'der-fallback-on-any-pem-failure', 'whatever pem::parse rejects is parsed as DER, unmodified' if ok else
+               'an input that the PEM parser rejects can be refused without being tried as DER (or the format is decided before parsing): a valid DER key whose bytes '
+               'happen to look like text no longer parses, although its PEM form does', body.loc(p0.idx))
+        pem_ok = [d for d in ders if d not in raw]
+        okc = any(d.term.args[0].place is not None and p0.idx in origins(body, [d.term.args[0].place[0]]).calls for d in pem_ok)
+        rep.ob('R18.3', okc, key + 'pem-contents-to-same-der-parser', 'PEM contents go to %s' % der if okc else 'the contents of a PEM block are not handed to %s' % der, body.loc())
 
 
 ITER_ORDER_PRESERVING = {'iter', 'into_iter', 'map', 'collect', 'by_ref', 'copied', 'cloned', 'deref', 'as_slice', 'as_ref', 'branch', 'from_residual', 'into', 'from',
